@@ -4,6 +4,7 @@ import (
 	"fmt"
 	"go/token"
 	"go/types"
+	"sort"
 	"strings"
 
 	"golang.org/x/tools/go/ssa"
@@ -836,7 +837,12 @@ func (ex *Exec) loopHead(fr *Frame, li *loopInfo, pc Term, st State) (Term, Stat
 		}
 		nm[k] = ex.vc.fresh("lh_"+shortKey(k), so)
 	}
+	var lallocs []*ssa.Alloc
 	for al := range locals {
+		lallocs = append(lallocs, al)
+	}
+	sort.Slice(lallocs, func(i, j int) bool { return allocOrder(lallocs[i]) < allocOrder(lallocs[j]) })
+	for _, al := range lallocs {
 		lv := fr.locals[al]
 		if lv == nil {
 			continue // allocated inside the loop: initialised when executed
@@ -949,3 +955,18 @@ func (ex *Exec) loopBack(fr *Frame, li *loopInfo, cond Term, st State) {
 }
 
 var _ = token.NoPos
+
+// allocOrder gives a deterministic order to a function's allocations.
+func allocOrder(al *ssa.Alloc) int {
+	n := 0
+	if b := al.Block(); b != nil {
+		n = b.Index * 100000
+		for i, in := range b.Instrs {
+			if in == al {
+				n += i
+				break
+			}
+		}
+	}
+	return n
+}
